@@ -125,6 +125,9 @@ func (e *Engine) fnInfo(fn *ssa.Function) *fnInfo {
 }
 
 func (s *State) clone(e *Engine) *State {
+	// neither side may keep writing in place into objects created before the fork
+	e.nstate++
+	s.id = e.nstate
 	e.nstate++
 	n := &State{id: e.nstate, cur: s.cur, unwind: s.unwind, steps: s.steps - 1, nSched: s.nSched}
 	n.heap = make(map[int]*Object, len(s.heap))
@@ -198,13 +201,16 @@ func (e *Engine) newObj(s *State, v Value, t types.Type, label string) *Object {
 	e.nobj++
 	o := &Object{ID: e.nobj, Val: v, T: t, owner: s.id, Label: label}
 	s.heap[o.ID] = o
+	if e.dbgLabels != nil {
+		e.dbgLabels[o.ID] = fmt.Sprintf("%s (state %d)", label, s.id)
+	}
 	return o
 }
 
 func (s *State) obj(id int) *Object {
 	o := s.heap[id]
 	if o == nil {
-		panic(fmt.Sprintf("dangling object %d", id))
+		panic(engineErr{fmt.Sprintf("dangling object %d in state %d: %s", id, s.id, dbgLabelsG[id])})
 	}
 	return o
 }
